@@ -81,6 +81,7 @@ type cell struct {
 	xl, xp uint64 // != 0: the limit / passes of the cell (any value of a uint option, also above the int range), instead of limit / passes
 	pick   []int  // chosencases: ids of the listed entries (nil: no chosencases option)
 	src    string // generic JSON provider: data source kind
+	wts    []int  // scenario kinds: weights of the n scenarios
 }
 
 func (c cell) lim() uint64 {
@@ -155,6 +156,13 @@ func (c cell) line() string {
 	}
 	if c.src != "" {
 		s += " src=" + c.src
+	}
+	if c.wts != nil {
+		p := make([]string, len(c.wts))
+		for i, w := range c.wts {
+			p[i] = strconv.Itoa(w)
+		}
+		s += " wts=" + strings.Join(p, ",")
 	}
 	return s
 }
@@ -551,7 +559,7 @@ func gen(r *rand.Rand, tier string) []string {
 	if thorough {
 		maxSL, maxSP, maxSN = 9, 5, 7
 	}
-	for si, src := range []string{"inline", "rs", "rsc", "pipe", "buf"} {
+	for si, src := range []string{"inline", "rs", "rsc", "pipe", "buf", "rc"} {
 		for limit := 0; limit <= maxSL; limit++ {
 			for passes := 0; passes <= maxSP; passes++ {
 				for n := 1; n <= maxSN; n++ {
@@ -596,6 +604,69 @@ func gen(r *rand.Rand, tier string) []string {
 			if src != "inline" { // the readers go through the cell's fault hooks
 				for _, kf := range []int{1, 2, 3, 5} {
 					add(cell{v: gv, limit: b.limit, passes: b.passes, n: b.n, cons: 1 + kf%2, cap: full, src: src, rfail: kf, rsticky: kf%2 == 0, cfail: b2i(src == "rsc" && kf%2 == 1)})
+				}
+			}
+		}
+	}
+
+	// L. scenario weights (http/scenario, grpc/scenario): the entries of a pass are scenario i, weight_i / gcd times in a
+	// row — weight vectors with and without a common divisor, a weight 0 (= 1), a single weighted scenario; x limit x passes,
+	// cut after every number of deliveries, stalled, through the engine; huge passes whose product with the entries wraps
+	wvs := [][]int{{2, 1}, {1, 3}, {2, 2}, {3, 1}, {2, 4, 6}, {5}, {0, 2}, {1, 1, 2}, {6, 4}, {3, 3, 3}}
+	if thorough {
+		for i := 0; i < 30; i++ {
+			w := make([]int, 1+r.Intn(4))
+			for j := range w {
+				w[j] = r.Intn(7)
+			}
+			wvs = append(wvs, w)
+		}
+	}
+	maxWL, maxWP := 5, 3
+	if thorough {
+		maxWL, maxWP = 13, 5
+	}
+	for vi, v := range vs {
+		if v.kind != c08cell.KHTTPScn && v.kind != c08cell.KGRPCScn {
+			continue
+		}
+		for wi, wv := range wvs {
+			eff := len(c08cell.Spread(wv))
+			for limit := 0; limit <= maxWL; limit++ {
+				for passes := 0; passes <= maxWP; passes++ {
+					h := vi + wi + limit + passes
+					c := cell{v: v, limit: limit, passes: passes, n: len(wv), wts: wv, cons: 1 + 2*(h%2), cap: capFor(limit, passes, eff), eol: h % 4}
+					if h%3 == 0 {
+						c.via = "cfg"
+					}
+					add(c)
+				}
+			}
+			for bi, b := range []bnd{{4, 0, 0}, {0, 2, 0}, {7, 3, 0}, {0, 0, 0}} {
+				m, bounded := expected(b.limit, b.passes, eff)
+				full := capFor(b.limit, b.passes, eff)
+				if bounded {
+					for cp := 1; cp <= m+1; cp++ {
+						add(cell{v: v, limit: b.limit, passes: b.passes, n: len(wv), wts: wv, cons: 1 + 2*((cp+bi)%2), cap: cp})
+					}
+				}
+				add(cell{v: v, limit: b.limit, passes: b.passes, n: len(wv), wts: wv, cons: 1 + bi%2, cap: 2, mode: "stall"})
+				add(cell{v: v, limit: b.limit, passes: b.passes, n: len(wv), wts: wv, cons: 2, cap: full, mode: "tcan", at: 30 * bi, jit: 1 + bi%3})
+				if bounded {
+					add(cell{v: v, limit: b.limit, passes: b.passes, n: len(wv), wts: wv, cons: 1 + 2*(bi%2), mode: "engine", via: "cfg", shots: 0})
+				}
+				add(cell{v: v, limit: b.limit, passes: b.passes, n: len(wv), wts: wv, cons: 2, mode: "engine", via: "cfg", shots: 5})
+			}
+			for hi, hv := range []uint64{two63, two63 + 1, 1<<62 + 1, ^uint64(0), ^uint64(0)/uint64(eff) + 1, ^uint64(0)/uint64(eff) + 2} {
+				for _, limit := range []int{0, 3, 10} {
+					c := cell{v: v, limit: limit, xp: hv, n: len(wv), wts: wv, cons: 1 + (hi+wi)%2, cap: limit + eff + 3}
+					if limit == 0 {
+						c.cap = 3*eff + 5
+					}
+					if (hi+wi)%2 == 0 {
+						c.via = "cfg"
+					}
+					add(c)
 				}
 			}
 		}
@@ -777,6 +848,8 @@ func run(input string) string {
 	}
 	pk, hasPick := kv["pick"]
 	c.Pick = parsePick(pk, hasPick)
+	wt, hasWts := kv["wts"]
+	c.Wts = parsePick(wt, hasWts)
 	if c.Mode == "" {
 		c.Mode = "drain"
 	}
@@ -878,6 +951,9 @@ func class(input, obs string) string {
 	if kv["src"] != "" {
 		x += "+src-" + kv["src"]
 	}
+	if kv["wts"] != "" {
+		x += "+wts"
+	}
 	return mode + ":" + kv["kind"] + pre + x + "/" + b
 }
 
@@ -896,7 +972,8 @@ func main() {
 			"fault plans (a failing / absent Close, an I/O error in the k-th file operation once or from then on, a failing open) alone, combined, and together with a cancel after cap acquisitions / from inside a file operation / at the bound; " +
 			"round 4: a chosencases option (every non-empty subset of the entries of files of 1..4 entries x limit 0..4 x passes 0..3, all kinds that have the option, preload on and off; also cut, stalled, through the engine, with faults), " +
 			"limit / passes near and above the int range (2^31+1 .. 2^64-1, products passes x entries that do not fit 64 bits) alone, with a small other bound and together, " +
-			"the data sources of the generic JSON provider (file, inline, NewReader over a ReadSeeker / ReadSeekCloser / plain io.Reader, NewBuffer); " +
+			"scenario weights (weight vectors with and without a common divisor, weight 0, one weighted scenario: a pass delivers scenario i weight_i / gcd times) x limit x passes, cut, stalled, through the engine, with huge passes; " +
+			"the data sources of the generic JSON provider (file, inline, NewReader over a ReadSeeker / ReadSeekCloser / ReadCloser without Seek / plain io.Reader, NewBuffer); " +
 			"also with a schedule without any token (idle: the engine cancels the provider inside its gate-th file operation, e.g. in the middle of LoadAmmo); four shapes of line ends (eol: LF, no final newline, CRLF, surrounding blank lines); random larger cells in all modes. " +
 			"Every cell is non-trivial (class = mode:kind/preload/bound shape)",
 	})
